@@ -299,6 +299,8 @@ class Slip32KeyDeserializer:
         path_idx = depth_idx + Bip32Depth.FixedLength()
 
         # Get back depth and path
+        if len(ser_key_bytes) <= depth_idx:
+            raise ValueError("Invalid extended key (empty payload)")
         depth = ser_key_bytes[depth_idx]
         path = Bip32Path()
         for i in range(depth):
@@ -315,6 +317,8 @@ class Slip32KeyDeserializer:
 
         # If private key, the first byte shall be zero and shall be removed
         if not is_public:
+            if len(key_bytes) == 0:
+                raise ValueError("Invalid extended private key (missing key)")
             if key_bytes[0] != 0:
                 raise ValueError(f"Invalid extended private key (wrong secret: {key_bytes[0]})")
             key_bytes = key_bytes[1:]
